@@ -103,6 +103,8 @@ SCALARS = [2, -1, 0.5, 3, -2.5, 1, 0, 1j, 4]
 
 
 def p_scalar(rng, metas, objs):
+    if rng.random() < 0.08:   # another representative of the same object: coordinates of size 1e-6 or 1e5
+        return {"s": rng.choice([1e-6, 1e5, -2e-6])}
     return {"s": rng.choice(SCALARS[:7])}
 
 
